@@ -229,6 +229,26 @@ Section Iter.
   Definition key_eqb (e : centry) (r : rdata) (a : Z) : bool :=
     size_eqb (ce_size e) (d_size r) && dur_eqb (ce_dur e) (d_dur r) && (ce_args e =? a).
 
+  (** lines 595-612, 614-630: render the frame, store it in the cache, deliver it;
+      [StopIteration] / exceptions propagate to [__next__], which closes the iterator *)
+  Definition render_frame (s : state) (fno : Z) : state * out :=
+    let r := rd s in
+    let '(res, rs') := render (rs s) (fo r) (wh r) (d_size r) (d_dur r) (args s) in
+    let s1 := set_rs (log_render s) rs' in
+    match res with
+    | ROk f =>
+      let s2 := if cached s
+                then set_cache s1 (upd (cache s1) fno
+                       (Some {| ce_frame := f; ce_size := d_size r; ce_dur := d_dur r;
+                                ce_args := args s |}))
+                else s1 in
+      deliver s2 f
+    | RStop =>
+      if definite then (close s1, OErr EStopDefinite)   (* lines 598-602, then __next__:166-168 *)
+      else (close (set_pub_loop s1 0), OStop)           (* lines 603-604, then __next__:157-159 *)
+    | RErr e => (close s1, OErr (ERender e))            (* __next__:160-168 *)
+    end.
+
   (** lines 581-630: the body of the inner loop for [frame_no = fno] *)
   Definition body (s : state) (fno : Z) : state * out :=
     let r := rd s in
@@ -240,22 +260,7 @@ Section Iter.
                else None in
     match hit with
     | Some f => deliver s f
-    | None =>
-      let '(res, rs') := render (rs s) (fo r) (wh r) (d_size r) (d_dur r) (args s) in
-      let s1 := set_rs (log_render s) rs' in
-      match res with
-      | ROk f =>
-        let s2 := if cached s
-                  then set_cache s1 (upd (cache s1) fno
-                         (Some {| ce_frame := f; ce_size := d_size r; ce_dur := d_dur r;
-                                  ce_args := args s |}))
-                  else s1 in
-        deliver s2 f
-      | RStop =>
-        if definite then (close s1, OErr EStopDefinite)   (* lines 598-602, then __next__:166-168 *)
-        else (close (set_pub_loop s1 0), OStop)           (* lines 603-604, then __next__:157-159 *)
-      | RErr e => (close s1, OErr (ERender e))            (* __next__:160-168 *)
-      end
+    | None => render_frame s fno
     end.
 
   (** lines 636-638, then the [while loop:] test and (since [0 < frame_count]) the body *)
